@@ -31,7 +31,8 @@ def innermost(Qi, elem):
     if elem == "array":
         return q.where(t.b == P.Array(2, 3))
     if elem == "interval":
-        return q.where(t.b > fn.Now() - P.Interval(days=5))
+        # (as an arithmetic operand and directly as a function argument)
+        return q.where(t.b > fn.Now() - P.Interval(days=5)).where(fn.Coalesce(t.c, P.Interval(hours=3)) == t.b)
     if elem == "interval-dialect-kw":
         # intervals constructed "for" a dialect (the constructor keyword): the rendering context still decides the literal form
         from pypika_tortoise.enums import Dialects
